@@ -1,0 +1,23 @@
+//go:build verif
+
+package fasthttp
+
+// C11, reset completeness: every field of the per-request objects is written by the reset function (directly or by a
+// method it calls on the receiver), or is listed here as configuration that is kept on purpose. A field added later
+// that Reset forgets fails `reset-complete[<field>]`. Checked by /verif/gocv (structural obligations; comment-only).
+
+//@ func Request.Reset
+//@   property C11
+//@   mode skeleton
+//@   fields Request
+//@   class w kept: the body-writer adapter holds only a back pointer to the request itself
+//@   class secureErrorLogMessage kept: server configuration copied into the request, not request state
+//@   class keepBodyBuffer kept: buffer-ownership mode chosen by the owner of the request
+
+//@ func Response.Reset
+//@   property C11
+//@   mode skeleton
+//@   fields Response
+//@   class w kept: the body-writer adapter holds only a back pointer to the response itself
+//@   class secureErrorLogMessage kept: server configuration copied into the response, not response state
+//@   class keepBodyBuffer kept: buffer-ownership mode chosen by the owner of the response
